@@ -55,6 +55,39 @@ PROPS = {
                        "naming, system range inside the hull; the model is compared with the real aggregate on every generated map and the same "
                        "decidable predicates are evaluated on the implementation's output.",
     },
+    "C12": {
+        "rule": "real sanitize_stack_copy on a synthetic dumper: mapping layouts (0-8 mappings, 1 page … 2^40 bytes, executable or not, straddling "
+                "2 MiB buckets and the modulo-2048 wrap of the pre-filter, system range shorter than the hull) + a stack mapping; stacks seeded with "
+                "boundary words (±small integers around ±4096, addresses at mapping edges and 2^32·2048 aliases, the sentinel itself); all offsets "
+                "and lengths incl. lengths shorter than the offset. Non-trivial = at least 3 word classes present; distinct = distinct "
+                "(#mappings, length, offset mod 8, class set).",
+        "expected_tags": ["word.small+", "word.small-", "word.stack", "word.code", "word.prefilter.falsepos", "word.other", "len<offset", "partial.tail"],
+        "trusted_base": ["little-endian 64-bit words (x86_64)"],
+        "assumptions": ["mapping list as produced by aggregate: system range inside the hull, pairwise disjoint system ranges, no 64-bit overflow (WfMaps; C13)"],
+        "explanation": "C12 theorems over the Lean model of sanitize_stack_copy: totality, output structure (zeros below SP, classified words, zero partial tail), "
+                       "length kept, and per word: unchanged iff it qualifies, sentinel otherwise (uses pre-filter soundness and the last-hit cache invariant); "
+                       "counterexample theorems for the two repaired defects.",
+    },
+    "C06": {
+        "rule": "real get_stack_info on synthetic layouts (accessible / PROT_NONE guard / unmapped, gaps around the 1 MiB guard distance, top of the "
+                "address space, system range shorter than the hull), stack pointers at all in-page offsets; [live part: see DESIGN]. Non-trivial = "
+                "at least one mapping; distinct = distinct (result class, SP situation, in-page offset, #mappings).",
+        "expected_tags": ["result.ok", "result.err", "sp.mapped", "sp.guard", "sp.unmapped", "sp.top"],
+        "trusted_base": ["page size is a power of two"],
+        "assumptions": ["mappings as produced by aggregate (HullOk; C13)"],
+        "explanation": "C06 theorems: guard walk terminates within its fuel and never overflows, totality, region soundness, SP-in-accessible-memory case, "
+                       "capped region contains SP and is ≤ 2 KiB, only threads at position ≥ 20 (never the crash-context thread) are shortened; "
+                       "counterexample theorem for the repaired cap defect.",
+    },
+    "C20": {
+        "rule": "real stack_has_pointer_to_mapping on stacks of length 0 … 64 with words at / next to both ends of the principal mapping at all "
+                "alignments and offsets; [live part: see DESIGN]. Non-trivial = at least two scanned words; distinct = distinct (offset mod 8, #words, hit pattern).",
+        "expected_tags": ["scan.true", "scan.false", "word.eq.high", "word.eq.low", "len<8"],
+        "trusted_base": [],
+        "assumptions": [],
+        "explanation": "C20 theorems: the scan is true iff an aligned slot at/above the SP offset holds an address in the half-open system range; the inclusion "
+                       "rule; no principal mapping ⇒ all stacks skipped; counterexample theorem for the repaired inclusive comparison.",
+    },
 }
 
 NOT_APPLICABLE = {}
